@@ -3,6 +3,7 @@
 
    MODE resolve   line = hex(treef dump)            -> OK <resolved sexp> | ERR k|file|line|c0|c1 ... | PANIC s | OUTOFFUEL
    MODE spec      line = hex(treef dump)            -> same, for ResolveSpec.resolve_spec
+   MODE fixed     line = hex(treef dump)            -> same, for the resolver with all three truncate flags on
    MODE alpha     line = hex(treef dump) TAB hex(treef dump)
                                                     -> ALPHA t|f  (AlphaDef.alpha_ast on the two programs)
    MODE order     line = resolved sexp (tools/resolved_io.py)
@@ -162,7 +163,55 @@ let () =
         (match mode with
          | "resolve" ->
              let ast = read_past (unhex_line line) in
-             print_result ast (resolve ast)
+             print_result ast (resolve_pinned ast)
+         | "fixed" ->
+             let ast = read_past (unhex_line line) in
+             print_result ast (resolve_fixed ast)
+         | "spec" ->
+             let ast = read_past (unhex_line line) in
+             print_result ast (resolve_spec ast)
+         | "order" ->
+             let r = read_resolved line in
+             Buffer.clear b;
+             (match init_order gen_assign_target_deps r.r_stmts with
+              | OOk l -> ps "ORDER "; p_stmts l
+              | OCycle c -> ps "CYCLE "; p_list (fun s -> p_sp (stmt_span s)) c
+              | OOutOfFuel -> ps "OUTOFFUEL");
+             print_endline (Buffer.contents b)
+         | "modules" ->
+             (match String.split_on_char '\t' line with
+              | main :: std :: files ->
+                  let fm = List.map (fun f ->
+                    let k = String.index f '=' in
+                    let path = String.sub f 0 k in
+                    let rest = String.sub f (k + 1) (String.length f - k - 1) in
+                    let (kind, uses) = (match String.index_opt rest ':' with
+                      | Some j -> (String.sub rest 0 j,
+                                   List.filter (fun u -> u <> "") (String.split_on_char ',' (String.sub rest (j + 1) (String.length rest - j - 1))))
+                      | None -> (rest, [])) in
+                    (rr_chars path,
+                     (match kind with
+                      | "conflict" -> FConflict
+                      | "bad" -> FSource (false, List.map rr_chars uses)
+                      | _ -> FSource (true, List.map rr_chars uses)))) files in
+                  let file_text2 = function File p -> "file:" ^ string_of_chars p | Lib l -> "lib:" ^ string_of_chars l in
+                  (match tree gen_std_uses fm (rr_chars main) (std = "std") with
+                   | TOk ms -> print_endline ("MODULES" ^ String.concat "" (List.map (fun (f, id) -> Printf.sprintf " %s#%d" (file_text2 f) (int_of_n id)) ms))
+                   | TErr fs -> print_endline ("ERRORS" ^ String.concat "" (List.map (fun f -> " " ^ file_text2 f) fs))
+                   | TOutOfFuel -> print_endline "OUTOFFUEL")
+              | _ -> print_endline "BADCASE")
+         | "usepath" ->
+             (* line = root TAB cur(file:..|lib:..) TAB path *)
+             (match String.split_on_char '\t' line with
+              | [root; cur; path] ->
+                  let cur = (if String.length cur >= 4 && String.sub cur 0 4 = "lib:" then Lib (rr_chars (String.sub cur 4 (String.length cur - 4)))
+                             else File (rr_chars (String.sub cur 5 (String.length cur - 5)))) in
+                  let nm = (match implicit_name (rr_chars path) with Some n -> string_of_chars n | None -> "-") in
+                  (match use_path gen_std_libs (rr_chars root) cur (rr_chars path) with
+                   | Some (File p) -> print_endline ("USE file:" ^ string_of_chars p ^ " " ^ nm)
+                   | Some (Lib l) -> print_endline ("USE lib:" ^ string_of_chars l ^ " " ^ nm)
+                   | None -> print_endline "USE error")
+              | _ -> print_endline "BADCASE")
          | _ -> print_endline "BADMODE")
       with
       | Unsupported w -> print_endline ("UNSUPPORTED " ^ w)
